@@ -128,7 +128,7 @@ section hist
 variable {q : Nat} {σ π ζ : Type} (S : Obj q → Rat → σ) (P : Obj q → σ → π) (Z : π → ζ)
 
 /-- `cache_coherent` on the full state: in **any** history of `stat / p_value / z_score` calls,
-    `+` and scalar `*` (either class), every call returns what a freshly built object with the
+    `+`, scalar `*` and `__div__` (either class), every call returns what a freshly built object with the
     current effect, variance, dof, type, `tiny` and `dofmax` returns for the requested baseline,
     and every `+` / `*` yields the object the pure operations yield. -/
 theorem history_coherent (impl : Impl) (ops : List (HOp q)) (c : Obj q) :
@@ -157,6 +157,11 @@ theorem history_coherent (impl : Impl) (ops : List (HOp q)) (c : Obj q) :
           | labs => simp only [runHist, denote]
       | smul k =>
           simp only [runHist, denote, ih (c.smul k) _ (hinit (c.smul k))]
+      | div k r =>
+          simp only [runHist, denote]
+          cases hdiv : c.div k r with
+          | ok c' => simp only [ih c' _ (hinit c')]
+          | error e => simp only [ih c st hst]
 end hist
 
 /-- the driver's history function is an instance: what it prints for a history is the pure
